@@ -10,6 +10,7 @@ static void vg_havoc(void)
 	__CPROVER_havoc_object(&VG_HDR);
 	vg_name_len = nondet_size_t();
 	vg_k = nondet_size_t();
+	vg_malloc_ok = nondet_int();
 }
 
 /* ---- lha_endian.c ---- */
@@ -85,6 +86,7 @@ void h_lifecycle(void)
 {
 	unsigned k;
 	__CPROVER_havoc_object(&VG_HDR);
+	vg_malloc_ok = nondet_int();   /* plain route: statics are not havocked for us */
 	VG_HDR.filename = NULL; VG_HDR.path = NULL; VG_HDR.unix_username = NULL; VG_HDR.unix_group = NULL;
 	for (k = 0; k < VG_LC_K; k++) {
 		uint8_t num = nondet_uchar();
